@@ -156,20 +156,24 @@ Definition has_check_impl (v : bview) : option bool :=
   is_attacked_impl v k (flipc (vstm v)).
 
 (** ** attacks.go:159  AttacksTo(p, square, color) *)
+(* attacks.go:161-169  the en-passant clause of AttacksTo *)
+Definition attacks_to_ep (v : bview) (square color : N) : option N :=
+  (* 163: if enPassantSquare != SqNone && enPassantSquare == square *)
+  if negb (vep v =? 64) && (vep v =? square) then
+    (* 164: pawnSquare := enPassantSquare.To(color.Flip().MoveDirection()) *)
+    do d <- move_direction (flipc color);
+    do ps <- sq_to (vep v) d;
+    (* 165: epAttacker := pawnSquare.NeighbourFilesMask() & pawnSquare.RankOf().Bb() & p.PiecesBb(color, Pawn) *)
+    do nf <- neighbour_files_mask ps;
+    do rb <- rank_bb (N.shiftr ps 3);
+    do pw <- pbb v color PAWN;
+    (* 166: if epAttacker != BbZero { epAttacks |= pawnSquare.Bb() } *)
+    if meets (N.land nf rb) pw then do m <- sq_bb ps; Some (N.lor 0 m) else Some 0
+  else Some 0.
+
 Definition attacks_to_impl (v : bview) (square color : N) : option N :=
   (* 161-169: epAttacks *)
-  do epAttacks <-
-    (if negb (vep v =? 64) && (vep v =? square) then
-       (* 164: pawnSquare := enPassantSquare.To(color.Flip().MoveDirection()) *)
-       do d <- move_direction (flipc color);
-       do ps <- sq_to (vep v) d;
-       (* 165: epAttacker := pawnSquare.NeighbourFilesMask() & pawnSquare.RankOf().Bb() & p.PiecesBb(color, Pawn) *)
-       do nf <- neighbour_files_mask ps;
-       do rb <- rank_bb (N.shiftr ps 3);
-       do pw <- pbb v color PAWN;
-       (* 166: if epAttacker != BbZero { epAttacks |= pawnSquare.Bb() } *)
-       if negb (N.land (N.land nf rb) pw =? 0) then do m <- sq_bb ps; Some (N.lor 0 m) else Some 0
-     else Some 0);
+  do epAttacks <- attacks_to_ep v square color;
   (* 171 *)
   let occ := occ_all v in
   (* 178: GetPawnAttacks(color.Flip(), square) & p.PiecesBb(color, Pawn) *)
